@@ -16,7 +16,9 @@ package reactive
 /*@
 global srcslot IntArr     -- position in the result of evict -> the slot whose event it is (ghost)
 global idxof IntArr       -- slot -> position of its event in the result of evict (ghost)
-global evs Slice          -- the events evict handed to Evict (ghost)
+global evrow IntArr       -- the events evict handed to Evict: backing array, offset, length (ghost)
+global evoff Int
+global evlen Int
 global triggered BoolArr  -- events whose Trigger was called by the running call (ghost)
 
 type evictionState
@@ -57,4 +59,41 @@ func evictionState.evict
   ensures forall j Int :: 0 <= j && j < len(r0) ==> sel(srcslot, j) <= slot && old(e.lastEvictedSlot == nil ? 0 : *e.lastEvictedSlot + 1) <= sel(srcslot, j) && sel(old(dom(e.evictionEvents.m)), sel(srcslot, j)) && r0[j] == sel(old(vals(e.evictionEvents.m)), sel(srcslot, j))
   ensures !old(e.lastEvictedSlot != nil && slot <= *e.lastEvictedSlot) ==> forall k Int :: old(e.lastEvictedSlot == nil ? 0 : *e.lastEvictedSlot + 1) <= k && k <= slot && old(has(e.evictionEvents.m, k)) ==> 0 <= sel(idxof, k) && sel(idxof, k) < len(r0) && sel(srcslot, sel(idxof, k)) == k
   ensures forall j1 Int, j2 Int :: 0 <= j1 && j1 < j2 && j2 < len(r0) ==> sel(srcslot, j1) < sel(srcslot, j2)
+
+-- Evict: exactly the events evict hands back are triggered
+func evictionState.Evict
+  instantiate Type: int
+  opt sequential
+  requires e != nil && unlocked(e.mutex) && e.evictionEvents != nil && e.evictionEvents.m != nil && e.evictionEvents.opts != nil && unlocked(e.evictionEvents.mutex)
+  requires slot >= 0 && (e.lastEvictedSlot != nil ==> *e.lastEvictedSlot >= 0)
+  modifies e.lastEvictedSlot, e.evictionEvents.m, e.evictionEvents.deletedKeys, allmaps(e.evictionEvents.m), allelems(Event), ghost(srcslot), ghost(idxof), ghost(triggered), ghost(evrow), ghost(evoff), ghost(evlen)
+  ghost after call evictionState.evict: evrow = elems(result)
+  ghost after call evictionState.evict: evoff = off(result)
+  ghost after call evictionState.evict: evlen = len(result)
+  ghost after call evictionState.evict: assume forall j Int :: 0 <= j && j < len(result) ==> result[j] != nil     -- events stored in the map are created events
+  ghost after call evictionState.evict: triggered = old(triggered)
+  ghost before call Event.Trigger: assert arg0 == sel(evrow, evoff + rangeindex + 1)   -- (rangeindex is the last finished position)
+  loop 1 invariant forall j Int :: 0 <= j && j <= rangeindex ==> sel(triggered, sel(evrow, evoff + j))
+  loop 1 invariant forall x Int :: sel(triggered, x) && !old(sel(triggered, x)) ==> exists j Int :: 0 <= j && j <= rangeindex && sel(evrow, evoff + j) == x
+  ensures unlocked(e.mutex)
+  ensures forall j Int :: 0 <= j && j < evlen ==> sel(triggered, sel(evrow, evoff + j))
+  ensures forall x Int :: sel(triggered, x) && !old(sel(triggered, x)) ==> exists j Int :: 0 <= j && j < evlen && sel(evrow, evoff + j) == x
+
+-- EvictionEvent: the pre-triggered event for an evicted slot, otherwise THE event of the slot (stored, or created and
+-- stored); decided under the lock
+func evictionState.EvictionEvent
+  instantiate Type: int
+  opt sequential
+  requires e != nil && unlocked(e.mutex) && e.evictionEvents != nil && e.evictionEvents.m != nil && unlocked(e.evictionEvents.mutex)
+  modifies map(e.evictionEvents.m)
+  ensures unlocked(e.mutex)
+  ensures old(e.lastEvictedSlot != nil && slot <= *e.lastEvictedSlot) ==> r0 == evictedSlotEvent && forall k Int :: (has(e.evictionEvents.m, k) <==> old(has(e.evictionEvents.m, k)))
+  ensures !old(e.lastEvictedSlot != nil && slot <= *e.lastEvictedSlot) ==> has(e.evictionEvents.m, slot) && r0 == e.evictionEvents.m[slot] && (old(has(e.evictionEvents.m, slot)) ==> r0 == old(e.evictionEvents.m[slot]))
+  ensures forall k Int :: k != slot ==> (has(e.evictionEvents.m, k) <==> old(has(e.evictionEvents.m, k))) && e.evictionEvents.m[k] == old(e.evictionEvents.m[k])
+
+func evictionState.LastEvictedSlot
+  instantiate Type: int
+  opt sequential
+  requires e != nil && unlocked(e.mutex)
+  ensures unlocked(e.mutex) && (e.lastEvictedSlot == nil ==> r0 == 0) && (e.lastEvictedSlot != nil ==> r0 == *e.lastEvictedSlot)
 @*/
